@@ -25,9 +25,10 @@ Qed.
 Definition gap_row : cir_row NumF := Build_cir_row NumF 1%float 0x1.3529ba7d19eafp-565%float 2%float 1%float.
 Definition gap_mid : cir_mid NumF := circle_mid NumF (cir_core_in NumF gap_row).
 
-(* the wrapper takes the general branch (none of mask1/2/3 holds: z <> 0 in binary64) ... *)
-Lemma gap_general : cir_mask5 NumF gap_row = true.
-Proof. vm_compute. reflexivity. Qed.
+(* since fix 588c868 of /repo the on-wire mask uses abs(z) < 1e-15 * r0: this row is now masked
+   (before the fix, with `z == 0`, it took the general branch and the call never returned) *)
+Lemma gap_masked : cir_mask5 NumF gap_row = false /\ cir_mask2 NumF gap_row = true.
+Proof. vm_compute. split; reflexivity. Qed.
 
 (* ... but z**2 underflows: q2 = 0 and the loop start value qc = q = 0 *)
 Lemma gap_q2_zero : PrimFloat.eqb (cm_q2 NumF gap_mid) 0%float = true /\ PrimFloat.eqb (cm_q NumF gap_mid) 0%float = true.
@@ -41,7 +42,7 @@ Proof.
     vm_compute; reflexivity.
 Qed.
 
-(* neither does the vectorised loop, nor the dispatcher, nor the wrapper's general branch *)
+(* neither does the vectorised loop *)
 Theorem circle_float_divergesv : forall fuel, cel_iterv NumF fuel [circle_start1 NumF gap_mid] = OutOfFuel.
 Proof.
   intros fuel. unfold cel_iterv.
@@ -49,19 +50,3 @@ Proof.
     auto; vm_compute; reflexivity.
 Qed.
 
-Theorem circle_float_diverges : forall fuel, circle_general NumF fuel [gap_row] = OutOfFuel.
-Proof.
-  intros fuel. unfold circle_general.
-  assert (F : filter (cir_mask5 NumF) [gap_row] = [gap_row]) by (unfold filter; rewrite gap_general; reflexivity).
-  rewrite F. unfold circle_core.
-  change (map (circle_mid NumF) (map (cir_core_in NumF) [gap_row])) with [gap_mid].
-  change (map (circle_start1 NumF) [gap_mid]) with [circle_start1 NumF gap_mid].
-  assert (E : cel_iter NumF fuel [circle_start1 NumF gap_mid] = OutOfFuel).
-  { unfold cel_iter. change (length [circle_start1 NumF gap_mid]) with 1%nat.
-    destruct (Nat.ltb 1 cel_iter_small_n).
-    - change (map (cel_iter0 NumF fuel) [circle_start1 NumF gap_mid])
-        with [cel_iter0 NumF fuel (circle_start1 NumF gap_mid)].
-      rewrite circle_float_diverges0. reflexivity.
-    - apply circle_float_divergesv. }
-  rewrite E. reflexivity.
-Qed.
